@@ -76,11 +76,14 @@ Record tmst := {
   token : Z;
   outgoing : option (list oreq);         (* outgoing_requests; None after shutdown *)
   incoming : option (list ireq);         (* incoming_requests; None after shutdown *)
-  next_h : Z }.
+  next_h : Z;
+  (* Context.request: requests whose send() task is still inside find_remote_and_interface (protocol.py:547-570, eg. name
+     resolution); they are in no TokenManager table yet.  (label, remote, type, observe) *)
+  resolving : list (Z * remote * mtype * bool) }.
 Record st := { tm : tmst; mm : mmst }.
 
 Definition init (uniform0 mid0 tok0 : Z) : st :=
-  {| tm := {| token := tok0; outgoing := Some []; incoming := Some []; next_h := 0 |};
+  {| tm := {| token := tok0; outgoing := Some []; incoming := Some []; next_h := 0; resolving := [] |};
      mm := {| message_id := mid0; recents := []; exchanges := Some []; backlogs := []; piggys := [];
               timers := []; forgets := []; next_tid := 0; now := 0; uniform := uniform0; transport_down := false |} |}.
 
@@ -95,10 +98,11 @@ Definition mm_set_next_tid (s : mmst) v := {| message_id := message_id s; recent
 Definition mm_set_now (s : mmst) v := {| message_id := message_id s; recents := recents s; exchanges := exchanges s; backlogs := backlogs s; piggys := piggys s; timers := timers s; forgets := forgets s; next_tid := next_tid s; now := v; uniform := uniform s; transport_down := transport_down s |}.
 Definition mm_set_message_id (s : mmst) v := {| message_id := v; recents := recents s; exchanges := exchanges s; backlogs := backlogs s; piggys := piggys s; timers := timers s; forgets := forgets s; next_tid := next_tid s; now := now s; uniform := uniform s; transport_down := transport_down s |}.
 Definition mm_set_transport_down (s : mmst) v := {| message_id := message_id s; recents := recents s; exchanges := exchanges s; backlogs := backlogs s; piggys := piggys s; timers := timers s; forgets := forgets s; next_tid := next_tid s; now := now s; uniform := uniform s; transport_down := v |}.
-Definition tm_set_outgoing (s : tmst) v := {| token := token s; outgoing := v; incoming := incoming s; next_h := next_h s |}.
-Definition tm_set_incoming (s : tmst) v := {| token := token s; outgoing := outgoing s; incoming := v; next_h := next_h s |}.
-Definition tm_set_token (s : tmst) v := {| token := v; outgoing := outgoing s; incoming := incoming s; next_h := next_h s |}.
-Definition tm_set_next_h (s : tmst) v := {| token := token s; outgoing := outgoing s; incoming := incoming s; next_h := v |}.
+Definition tm_set_outgoing (s : tmst) v := {| token := token s; outgoing := v; incoming := incoming s; next_h := next_h s; resolving := resolving s |}.
+Definition tm_set_incoming (s : tmst) v := {| token := token s; outgoing := outgoing s; incoming := v; next_h := next_h s; resolving := resolving s |}.
+Definition tm_set_token (s : tmst) v := {| token := v; outgoing := outgoing s; incoming := incoming s; next_h := next_h s; resolving := resolving s |}.
+Definition tm_set_next_h (s : tmst) v := {| token := token s; outgoing := outgoing s; incoming := incoming s; next_h := v; resolving := resolving s |}.
+Definition tm_set_resolving (s : tmst) v := {| token := token s; outgoing := outgoing s; incoming := incoming s; next_h := next_h s; resolving := v |}.
 
 (* ---------------------------------------------------------------- the event loop: call_later / cancel *)
 Definition call_later (s : mmst) (delay : Z) (k : tkind) : mmst * Z :=
@@ -417,7 +421,7 @@ Definition _remove_exchange (s : st) (m : msg) : st * list output :=
 
 (* tokenmanager.py:138-156: a pipe event on the server side reaches send_message with [stop] as its monitor; the
    last event ends the pipe (entry removed, task told to cancel while it is returning anyway) *)
-Definition handler_respond (s : st) (h code : Z) (last : bool) (obs : option Z) : st * list output :=
+Definition handler_respond (s : st) (h code : Z) (last : bool) (obs : option Z) (linger : bool) : st * list output :=
   match incoming (tm s) with
   | None => (s, [])
   | Some is_ =>
@@ -426,7 +430,9 @@ Definition handler_respond (s : st) (h code : Z) (last : bool) (obs : option Z) 
       | Some i =>
           let '(mm1, out) := send_message (mm s) None code (i_tok i) obs (i_remote i) (Some (i_type i)) (MonSrv h) in
           let tm1 := if last then tm_set_incoming (tm s) (Some (filter (fun i => negb (i_h i =? h)) is_)) else tm s in
-          ({| tm := tm1; mm := mm1 |}, out)
+          (* the end of the pipe cancels the rendering task (pipe.py:234); that is only felt by a handler that is still
+             awaiting something after its last response *)
+          ({| tm := tm1; mm := mm1 |}, out ++ (if last && linger then [OHCancel h] else []))
       end
   end.
 
@@ -577,7 +583,9 @@ Inductive event :=
 | Advance (d : Z)                                         (* time passes; every timer that becomes due fires *)
 | ClientRequest (q : Z) (r : remote) (mt : mtype) (observe : bool)
 | ClientCancel (q : Z)                                    (* the application cancels Request.response *)
-| HandlerRespond (h code : Z) (last : bool) (obs : option Z)
+| ClientRequestSlow (q : Z) (r : remote) (mt : mtype) (observe : bool)   (* a request whose remote still has to be looked up *)
+| Resolved (q : Z)                                        (* determine_remote returns for request q *)
+| HandlerRespond (h code : Z) (last : bool) (obs : option Z) (linger : bool)   (* linger: the coroutine keeps awaiting after its last response *)
 | HandlerRaise (h code : Z)                               (* the handler raises; rendered as a final response with [code] *)
 | TransportError (r : remote)                             (* the transport reports an error for r *)
 | Shutdown.
@@ -600,8 +608,16 @@ Definition step (s : st) (e : event) : st * list output :=
   | Advance d => advance_to ADVANCE_FUEL s (now (mm s) + d)
   | ClientRequest q r mt observe => tm_request s q r mt observe
   | ClientCancel q => let '(tm1, o) := client_cancel (tm s) q in ({| tm := tm1; mm := mm s |}, o)
-  | HandlerRespond h code last obs => handler_respond s h code last obs
-  | HandlerRaise h code => handler_respond s h code true None
+  | ClientRequestSlow q r mt observe =>
+      ({| tm := tm_set_resolving (tm s) (resolving (tm s) ++ [(q, r, mt, observe)]); mm := mm s |}, [])
+  | Resolved q =>
+      match find (fun x => fst (fst (fst x)) =? q) (resolving (tm s)) with
+      | None => (s, [])
+      | Some (_, r, mt, observe) =>
+          tm_request {| tm := tm_set_resolving (tm s) (filter (fun x => negb (fst (fst (fst x)) =? q)) (resolving (tm s))); mm := mm s |} q r mt observe
+      end
+  | HandlerRespond h code last obs linger => handler_respond s h code last obs linger
+  | HandlerRaise h code => handler_respond s h code true None false
   | TransportError r => dispatch_error s NetworkError r
   | Shutdown => shutdown s
   end.
